@@ -229,6 +229,13 @@ class ShiftInterp:
                     self.typed.append((t.id, v, s))
                     if isinstance(s.value, ast.Call) and (self.ext_name(s.value) or "") in ("numpy.max", "numpy.amax", "builtins.max") and s.value.args:
                         env["__maxof__:" + t.id] = norm_text(s.value.args[0])
+                    if isinstance(s.value, ast.Call) and (self.ext_name(s.value) or "") in ("numpy.logaddexp.reduce", "scipy.special.logsumexp") and s.value.args \
+                            and not any(k.arg == "axis" for k in s.value.keywords):
+                        env["__lseof__:" + t.id] = norm_text(s.value.args[0])
+                    # a re-binding of the array a remembered max / log-sum-exp was taken of ends that memory
+                    for key in [k for k in env if isinstance(k, str) and k.startswith(("__maxof__:", "__lseof__:")) and env[k] == t.id and not k.endswith(":" + t.id)]:
+                        if not (isinstance(s.value, ast.BinOp) and isinstance(s.value.op, ast.Sub) and isinstance(s.value.right, ast.Name) and key.endswith(":" + s.value.right.id)):
+                            del env[key]
         elif isinstance(s, ast.AugAssign):
             fake = ast.BinOp(left=s.target, op=s.op, right=s.value)
             ast.copy_location(fake, s)
@@ -477,6 +484,9 @@ class ShiftInterp:
                     elif rn in ("numpy.max", "numpy.amax", "builtins.max"):
                         le0 = True
                 if isinstance(op, ast.Sub) and isinstance(e.right, ast.Name) and env.get("__maxof__:" + e.right.id) == norm_text(e.left):
+                    le0 = True
+                if isinstance(op, ast.Sub) and isinstance(e.right, ast.Name) and env.get("__lseof__:" + e.right.id) == norm_text(e.left):
+                    nrm = True  # x - L with L = logsumexp(x) bound to a local just before
                     le0 = True
                 return ST("shift", k, axes, norm=nrm, cval=cv, le0=le0)
             if l.kind == "scale" and r.kind == "scale" and l.k == r.k:
